@@ -25,6 +25,7 @@ type GenConfig struct {
 	Jumble     bool // capture files that are not sorted by time
 	Chatty     bool // now and then a flow of thousands of tiny alternating messages
 	Talkative  bool // one flow of 60-150 tiny alternating messages (a converter is fed many lines for it)
+	Resume     bool // a UDP flow that falls silent for longer than the inactivity rule and then resumes, in a shared reassembly bucket
 	LateStarts bool // most conversations start late: later capture files hold more streams than earlier ones (merge cascades)
 }
 
@@ -177,6 +178,27 @@ func Gen(r *rand.Rand, cfg GenConfig) *Spec {
 		twin := ConvSpec{Proto: "udp", Seed: r.Uint64(), Client: fmt.Sprintf("%s:%d", host, cp^1), Server: fmt.Sprintf("10.1.0.9:%d", sp^1), StartUS: long.StartUS + int64(1_000_000+r.IntN(20_000_000)), StepUS: 100}
 		twin.Msgs = []MsgSpec{{Dir: 0, Len: 9}, {Dir: 1, Len: 7, GapUS: 1000}}
 		spec.Convs = append(spec.Convs, long, twin)
+	}
+	// a flow that resumes after the inactivity timeout, next to a flow in the same
+	// reassembly bucket that stays active meanwhile (both orders of arrival)
+	if cfg.UDP && cfg.Resume && r.IntN(3) == 0 {
+		cp := uint16(31000 + 2*r.IntN(4000))
+		sp := uint16(7000 + 2*r.IntN(100))
+		host := fmt.Sprintf("10.0.2.%d", 40+r.IntN(5))
+		long := ConvSpec{Proto: "udp", Seed: r.Uint64(), Client: fmt.Sprintf("%s:%d", host, cp), Server: fmt.Sprintf("10.1.0.9:%d", sp), StartUS: r.Int64N(2_000_000), StepUS: 100}
+		for j := 0; j < 7+r.IntN(3); j++ {
+			long.Msgs = append(long.Msgs, MsgSpec{Dir: j % 2, Len: 5 + r.IntN(40), GapUS: int64(80_000_000 + r.IntN(100_000_000))})
+		}
+		long.Msgs[0].GapUS = 0
+		res := ConvSpec{Proto: "udp", Seed: r.Uint64(), Client: fmt.Sprintf("%s:%d", host, cp^1), Server: fmt.Sprintf("10.1.0.9:%d", sp^1), StartUS: long.StartUS + int64(1_000_000+r.IntN(20_000_000)), StepUS: 100}
+		if r.IntN(2) == 0 {
+			res.StartUS = long.StartUS - int64(1+r.IntN(900_000))
+			if res.StartUS < 0 {
+				res.StartUS = 0
+			}
+		}
+		res.Msgs = []MsgSpec{{Dir: 0, Len: 9}, {Dir: 1, Len: 7, GapUS: 1000}, {Dir: 0, Len: 11, GapUS: int64(310_000_000 + r.IntN(120_000_000))}, {Dir: 1, Len: 6, GapUS: 1000}}
+		spec.Convs = append(spec.Convs, long, res)
 	}
 	if r.IntN(8) == 0 && len(spec.Convs) >= 1 {
 		// an address whose four bytes also occur, unaligned, where the addresses of
